@@ -41,7 +41,7 @@ for be in BACKS:
         Part(SM, ['struct exit_pt', 'struct ForwardHelper < true , Dummy >'], 'static void helper ( ForwardEvent const & incomingEvent , forwarding_function & forward_fct )'),
         'void forward_helper(event_t incomingEvent, fwd_fct_t* forward_fct, _Bool OwnEvent)', 'entryexit_back.spec.h',
         xform=back_xform([], refparams=(), rewrites=[dict(name='function-bool', pat='( forward_fct )', rep='( forward_fct -> set )', min=0, max=2), dict(name='function-bool-not', pat='! forward_fct', rep='! forward_fct -> set', min=0, max=2),
-                                                     dict(name='function-call', pat='forward_fct ( incomingEvent ) ;', rep='call_forward ( forward_fct , incomingEvent ) ;', min=0, max=2)]), replay=['hist']))
+                                                     dict(name='function-call', pat='forward_fct ( incomingEvent ) ;', rep='call_forward ( forward_fct , incomingEvent ) ;', min=0, max=2)]), replay=['hist', 'sel', 'copy']))
 
 for be in BACKS:
     SM = be + '/state_machine.hpp'
